@@ -36,6 +36,21 @@ def replay_file(path):
             if vlib.same_violation(r, want):
                 again = True
                 break
+    elif eng == "A-free":
+        plain = sc.build("./simharness", "simharness")
+        racebin = sc.build("./simharness", "simharness-race", race=True)
+        vlib.ENV["SIM_REFBIN"] = plain
+        tmp = os.path.join(sc.dir, "free.json")
+        json.dump(dict(rf, decisions={"switches": [], "maps": [], "fails": []}), open(tmp, "w"))
+        for i in range(100):
+            args = ["batch", "-replay", tmp, "-free", "-corpus", sc.corpus_path, "-census", sc.census_path, "-refdir", os.path.join(sc.dir, "refcache"), "-racelog", os.path.join(sc.dir, "race", "free%d" % i)]
+            rc, lines, err = vlib.run_chunk(racebin, args, {"GORACE": "log_path=%s halt_on_error=0 atexit_sleep_ms=0" % os.path.join(sc.dir, "race", "free%d" % i), "GOMAXPROCS": "8"}, 600)
+            r = next((l for l in lines if "sig" in l), {})
+            if vlib.same_violation(r, want):
+                again, detail = True, "recurred in free-running repetition %d" % (i + 1)
+                break
+        else:
+            detail = "did not recur in 100 free-running repetitions"
     elif eng == "C-generate":
         simacv = sc.build("./cmd", "simacv")
         prof = {"id": rf["profile_id"], "path": remap(sc, rf["profile"]) if os.path.isabs(rf["profile"]) else rf["profile"]}
